@@ -177,7 +177,7 @@ def runCase (s : St) : String :=
     let L := ld.toLang
     let starts := lineStarts s.text2
     let newExt := if dirtyTree i.root then none else some (extLeaves i.root 0 #[])
-    let rs := s.log.foldl (replayLine L ld.symName starts o.root) ({ colFix := s.colFix, newExt := newExt, eofEnd := if s.eofFix then some o.root.totalBytes else none } : RS)
+    let rs := s.log.foldl (replayLine L ld.symName starts o.root) ({ colFix := s.colFix, newExt := newExt, eofEnd := if s.eofFix then some o.root.totalBytes else none, newRanges := i.ranges.map (fun r => (r.start_byte, r.end_byte)) } : RS)
     -- diagnosis for known finding C01-eof-lookahead-range-added: a range difference starts at or
     -- after the end of the old tree's last included range (tokens that peeked the old end of input)
     let oldEnd := o.ranges.foldl (fun m r => max m r.end_byte) 0
@@ -199,7 +199,7 @@ def runCase (s : St) : String :=
       | some m, _ => "DIFF " ++ m
       | none, some m => "DIFF reuse certificate: " ++ m
       | none, none => if doc.startsWith "MISMATCH" then "DIFF LR machine on the real table: " ++ (doc.drop 9).toString else "ok"
-    s!"{s.id} judge={j} corr={corr} clean={if clean then 1 else 0} gate={rs.gate} match={rs.matched} undet={rs.undet} reordered={rs.reordered} ext={rs.extChecked} bd={rs.bdChecked} index_skipped={rs.indexSkipped} refusals={rs.refusals} reused_inner={rs.reusedInner} reused_leaf={rs.reusedLeaf} reused_bytes={rs.reusedBytes} lexed={rs.lexed} nodes={i.root.size} rangediffs={rs.diffs.size} coldep={if rs.coldepSeen then 1 else 0} diff_beyond_old_end={if beyond then 1 else 0} lr_doc={(doc.splitOn " ").headD ""} cert_ok={cs.ok} cert_stuck={cs.stuck} cert_glr={cs.amb} cert_skipped={cs.skipped}"
+    s!"{s.id} judge={j} corr={corr} clean={if clean then 1 else 0} gate={rs.gate} match={rs.matched} undet={rs.undet} pos_uncertain={rs.posUncertain} reordered={rs.reordered} ext={rs.extChecked} bd={rs.bdChecked} index_skipped={rs.indexSkipped} refusals={rs.refusals} reused_inner={rs.reusedInner} reused_leaf={rs.reusedLeaf} reused_bytes={rs.reusedBytes} lexed={rs.lexed} nodes={i.root.size} rangediffs={rs.diffs.size} coldep={if rs.coldepSeen then 1 else 0} diff_beyond_old_end={if beyond then 1 else 0} lr_doc={(doc.splitOn " ").headD ""} cert_ok={cs.ok} cert_stuck={cs.stuck} cert_glr={cs.amb} cert_skipped={cs.skipped}"
   | none, _, _, _ => s!"{s.id} judge=BADINPUT corr=BADINPUT no tables for language {s.lang}"
   | _, _, _, _ => s!"{s.id} judge=BADINPUT corr=BADINPUT unreadable dump"
 
